@@ -304,6 +304,11 @@ func checkC01(c *Ctx) {
 			c2.c09Mem(pm)
 		}
 	}, "C09/GUARD/mem/boxes-insert", "C01/STORE/atomic-create", "memory store: a mailbox entry is looked up and created in one critical section (two first deliveries cannot each create an entry)")
+	nB += c.borrow(func(c2 *Ctx) {
+		if sm := c2.stores(); sm.ok {
+			c2.c07Mem(sm)
+		}
+	}, "C07/ID/monotone/mem.Store.boxes:entries-persist", "C01/STORE/entries-persist", "memory store: mailbox entries are never deleted or replaced, so a delivery that already holds an entry cannot file its (then acknowledged) message in a mailbox no reader can reach")
 	r.Floor("C01/STORE/atomic-append", "borrowed store-atomicity obligations", nB, 1)
 
 	// ---- D6
